@@ -9,7 +9,7 @@
 (* on the same table, says the ranges themselves tile 0 .. MAX).           *)
 (* Then value / is_valid / range of all 256 raw codes.                     *)
 (***************************************************************************)
-EXTENDS LengthCode, Tables, Json, IOUtils, TLC, TLCExt
+EXTENDS LengthCode, Tables, Alloc, Json, IOUtils, TLC, TLCExt
 
 Rec == ndJsonDeserialize(IOEnv.TRACE)
 VARIABLE l
@@ -17,7 +17,7 @@ Ev == Rec[l]
 IsEvent(k) == l <= Len(Rec) /\ Ev.e = k /\ l' = l + 1
 
 TLenRun ==
-    /\ IsEvent("len_run") /\ Ev.p = "" /\ Ev.a = 0
+    /\ IsEvent("len_run") /\ Ev.p = "" /\ AllocOk(Ev.e, Ev.a)
     /\ l <= NumCodes + 1
     /\ IF l <= NumCodes
        THEN /\ Ev.code = l - 1 /\ Ev.tcode = l - 1              \* new() and try_from() agree
@@ -28,7 +28,7 @@ TLenRun ==
 TSweepEnd == IsEvent("len_sweep_end") /\ l = NumCodes + 2
 
 TLenCode ==
-    /\ IsEvent("len_code") /\ Ev.p = "" /\ Ev.a = 0
+    /\ IsEvent("len_code") /\ Ev.p = "" /\ AllocOk(Ev.e, Ev.a)
     /\ Ev.parsed /\ Ev.value = Ev.c
     /\ Ev.valid = CodeValid(Ev.c)
     /\ Ev.range = CodeRange(Ev.c)
